@@ -140,35 +140,79 @@ func (r *c06Resolver) Resolve(id did.DID, md *resolver.ResolveMetadata) (*did.Do
 		}
 		doc.VerificationMethod.Add(vm)
 	}
-	meta := &resolver.DocumentMetadata{}
+	meta := &resolver.DocumentMetadata{Deactivated: vs[pick].deactivated}
 	for s := range vs[pick].sources {
 		meta.SourceTransactions = append(meta.SourceTransactions, s)
 	}
 	return doc, meta, nil
 }
 
-// vouched is the ground truth: does kid denote a key at all, and is there, among prevs, a transaction that produced a
-// version of the signer's document that lists it (then: which key).
+// vouched is the ground truth: does kid denote a key at all, and does it denote one in the signer's document AS OF the
+// referenced transactions. The document as of a set of referenced transactions is the NEWEST version one of them produced
+// (versions are published on one causal chain: a transaction that refers to the source transaction of version n+1 has the
+// source transaction of version n in its past, whatever else it lists and in whatever order). So: the newest version of the
+// signer's document produced by one of prevs must be active and list the key; an older referenced version that still listed a
+// key which the newest referenced version removed (or which was deactivated there) vouches for nothing.
 func (r *c06Resolver) vouched(kid string, prevs []hash.SHA256Hash) (pub crypto.PublicKey, known, vouched bool) {
-	for _, v := range r.versions(c06DIDOf(kid)) {
-		k, lists := v.keys[kid]
-		if !lists {
-			continue
-		}
-		known = true
-		if v.deactivated {
-			continue // a deactivated version authorises nothing, whatever it still lists
-		}
-		if v.sources == nil {
-			return k, true, true
-		}
-		for _, p := range prevs {
+	pub, known, vouched, _ = r.vouchedWhy(kid, prevs)
+	return
+}
+
+// vouchedWhy additionally tells, for a key that is NOT vouched for although a referenced (older, active) version lists it,
+// how it was superseded ("removed" | "deactivated") and whether the vouching version or the superseding one comes first in
+// prevs: "<how>:<vouching|superseding>-version-first".
+func (r *c06Resolver) vouchedWhy(kid string, prevs []hash.SHA256Hash) (pub crypto.PublicKey, known, vouched bool, superseded string) {
+	vs := r.versions(c06DIDOf(kid))
+	pos := func(v c06DocVersion) int { // position in prevs of the first transaction that produced v, -1 if none
+		for i, p := range prevs {
 			if v.sources[p] {
-				return k, true, true
+				return i
 			}
 		}
+		return -1
 	}
-	return nil, known, false
+	top := -1
+	for i, v := range vs {
+		if _, lists := v.keys[kid]; lists {
+			known = true
+			if v.sources == nil && !v.deactivated {
+				return v.keys[kid], true, true, "" // document without a modelled history: matches every reference
+			}
+		}
+		if v.sources != nil && pos(v) >= 0 {
+			top = i
+		}
+	}
+	if top < 0 {
+		return nil, known, false, ""
+	}
+	if k, lists := vs[top].keys[kid]; lists && !vs[top].deactivated {
+		return k, true, true, ""
+	}
+	// not vouched for; was it by an older referenced version?
+	authorises := func(v c06DocVersion) bool { _, lists := v.keys[kid]; return lists && !v.deactivated }
+	oldest := -1 // oldest referenced version that authorises the key
+	for i := 0; i < top; i++ {
+		if vs[i].sources != nil && pos(vs[i]) >= 0 && authorises(vs[i]) {
+			oldest = i
+			break
+		}
+	}
+	if oldest < 0 {
+		return nil, known, false, ""
+	}
+	how := "removed"
+	if vs[top].deactivated {
+		how = "deactivated"
+	}
+	// which does a reader of prevs meet first: a version that lists the key, or a later one that took it away
+	firstPos, first := len(prevs), "vouching"
+	for i := oldest; i <= top; i++ {
+		if q := pos(vs[i]); vs[i].sources != nil && q >= 0 && q < firstPos {
+			firstPos, first = q, map[bool]string{true: "vouching", false: "superseding"}[authorises(vs[i])]
+		}
+	}
+	return nil, known, false, how + ":" + first + "-version-first"
 }
 
 // resolvable: SourceTXKeyResolver walks prevs in order and gives up at the first one that produced a version NOT listing the
@@ -719,10 +763,12 @@ func (f *c06Fix) checkAdmitted(step int, what string, tx Transaction, data, payl
 		}
 		pub = p
 	default:
-		p, known, ok := f.res.vouched(kid, tx.Previous())
+		p, known, ok, superseded := f.res.vouchedWhy(kid, tx.Previous())
 		switch {
 		case !known:
 			bad("kid-unknown", "kid %q denotes no key in any version of the signer's document", kid)
+		case !ok && superseded != "":
+			bad("kid-superseded-as-of-prevs:"+superseded, "kid %q is listed by an older referenced version of the signer's document, but the newest version produced by one of the referenced transactions no longer authorises it (%s): as of the referenced transactions the key id denotes no key", kid, superseded)
 		case !ok:
 			bad("kid-not-as-of-prevs", "none of the referenced transactions produced a version of the signer's document that lists kid %q", kid)
 		default:
